@@ -335,6 +335,21 @@ def twin_case(ctx, i, rng):
         raise Skip("exact-Jacobian twin did not stay finite (outside the neighbourhood)")
     if not r2.converged:
         raise Skip("exact-Jacobian twin did not converge within 50 iterations (outside the neighbourhood: no optimum to compare with)")
+    # "the same optimum" presupposes an isolated one: distance-only constraints can leave a direction (almost) free, the minimisers then form a valley
+    # along which two correct optimizers stop at different points with the same chi2
+    try:
+        H_o, _b_o, _c_o, idx_o, nn_o = M.assemble(gt, "ref")
+        free_o = M.free_mask(gt, nn_o, idx_o)
+        ev_o = np.linalg.eigvalsh((H_o[np.ix_(free_o, free_o)] + H_o[np.ix_(free_o, free_o)].T) / 2) if free_o.any() else np.array([1.0])
+        isolated = bool(ev_o.min() > 0 and ev_o.max() / ev_o.min() <= 1e8)
+    except Exception:  # noqa: BLE001
+        isolated = False
+    if not r1.converged and (r2.num_iterations or 0) > 25:
+        # a large-residual problem on which even exact Gauss-Newton needs dozens of iterations (linear convergence with a rate close to 1): where the
+        # numerical twin stands after 50 iterations says nothing about where it is heading
+        raise Skip("slowly converging problem (exact twin needed > 25 iterations) and the numerical twin has not settled within 50: no verdict")
+    if not isolated:
+        raise Skip("the optimum is not isolated (reduced Hessian at the exact twin's optimum has condition number > 1e8): no unique optimum to compare")
     scene = max(1.0, max(R.tmag(v["kind"], v["pose"]) for v in spec["vertices"]))
     worst = 0.0
     moved = 0.0
